@@ -192,15 +192,20 @@ def _native(i: int, ast, sql: bool):
 class Case(typing.NamedTuple):
     statement: tuple  # AST
     pool: tuple  # ((priority | None, (advertised AST, ...)), ...)   None = explicit instance; priority in halves
+    before: tuple = ()  # statements the SAME importer instance was asked before (request history)
 
 
 def case_json(case: Case) -> dict:
-    return {'statement': listify(case.statement),
-            'pool': [{'priority2': p, 'advertised': [listify(a) for a in adv]} for p, adv in case.pool]}
+    out = {'statement': listify(case.statement),
+           'pool': [{'priority2': p, 'advertised': [listify(a) for a in adv]} for p, adv in case.pool]}
+    if case.before:
+        out['asked_before_on_the_same_importer'] = [listify(b) for b in case.before]
+    return out
 
 
 def case_from_json(w: dict) -> Case:
-    return Case(tuplify(w['statement']), tuple((f['priority2'], tuple(tuplify(a) for a in f['advertised'])) for f in w['pool']))
+    return Case(tuplify(w['statement']), tuple((f['priority2'], tuple(tuplify(a) for a in f['advertised'])) for f in w['pool']),
+                tuple(tuplify(b) for b in w.get('asked_before_on_the_same_importer', ())))
 
 
 class Observed(typing.NamedTuple):
@@ -211,10 +216,17 @@ class Observed(typing.NamedTuple):
     identity: bool  # an explicit instance is returned as that very object
     covers: tuple  # per feed: True / False / ('error', class)   (single-feed importer)
     parses: tuple  # per feed: 'ok' | 'unprovisioned' | 'other:<class>'
+    earlier: int = 0  # number of requests the importer instance had answered before this one
 
 
 def observe(case: Case, sql: bool = False, split_builders: bool = False, via_config: bool = False) -> Observed:
-    """Run the real code on one case.  `via_config`: the lazily configured feeds are `[FEED.<ref>]` sections of the
+    """The real code's answer to `case.statement` (after `case.before` on the same importer instance)."""
+    return observe_all(case, sql, split_builders, via_config)[-1]
+
+
+def observe_all(case: Case, sql: bool = False, split_builders: bool = False, via_config: bool = False) -> list:
+    """Run the real code on one case: ONE `io.Importer` instance answers `case.before + (case.statement,)` in that
+    order; one `Observed` per request.  `via_config`: the lazily configured feeds are `[FEED.<ref>]` sections of the
     platform configuration resolved by `setup.Feed(<ref>)` (provider, priority - omitted when 0 -, params), otherwise the
     descriptor tuples are built directly."""
     import forml
@@ -226,7 +238,6 @@ def observe(case: Case, sql: bool = False, split_builders: bool = False, via_con
     cls, alias = (DoubleSql, ALIAS_SQL) if sql else (Double, ALIAS)
     b1 = g.Builder()
     b2 = g.Builder() if split_builders else b1
-    stmt = b1.build(case.statement)
     base = _CACHE['key'] = _CACHE.get('key', 0) + 16
     keys = [base + i for i in range(len(case.pool))]
     saved = _conf.CONFIG.get(setup.Feed.GROUP)
@@ -255,36 +266,11 @@ def observe(case: Case, sql: bool = False, split_builders: bool = False, via_con
             else:
                 slots.append(Conf(alias, prio / 2, keys[i]))
         importer = io.Importer(*slots)
-        stable = identity = True
-        try:
-            feed = importer.match(stmt)
-            selected = keys.index(feed.key)
-            stable = importer.match(stmt) is feed
-            if selected in explicit:
-                identity = feed is explicit[selected]
-        except forml.MissingError as err:
-            selected = None if type(err) is forml.MissingError else ('error', type(err).__name__)
-        except Exception as err:  # pylint: disable=broad-except
-            selected = ('error', type(err).__name__)
-        covers, parses = [], []
-        for i in range(len(case.pool)):
-            feed = cls(key=keys[i])
-            try:
-                covers.append(io.Importer(feed).match(stmt) is feed)
-            except forml.MissingError as err:
-                covers.append(False if type(err) is forml.MissingError else ('error', type(err).__name__))
-            except Exception as err:  # pylint: disable=broad-except
-                covers.append(('error', type(err).__name__))
-            try:
-                with feed.Reader.parser(feed.sources, feed.features) as visitor:
-                    stmt.accept(visitor)
-                    visitor.fetch()
-                parses.append('ok')
-            except dsl.UnprovisionedError:
-                parses.append('unprovisioned')
-            except Exception as err:  # pylint: disable=broad-except
-                parses.append(f'other:{type(err).__name__}')
-        return Observed(g.to_ast(stmt), tuple(readback), selected, stable, identity, tuple(covers), tuple(parses))
+        out = []
+        for earlier, ast in enumerate(case.before + (case.statement,)):
+            stmt = b1.build(ast)  # rebuilt for every request: a repeated statement is an equal, not the identical object
+            out.append(_request(importer, stmt, keys, explicit, cls, tuple(readback), earlier))
+        return out
     finally:
         if saved is None:
             dict.pop(_conf.CONFIG, setup.Feed.GROUP, None)
@@ -292,6 +278,44 @@ def observe(case: Case, sql: bool = False, split_builders: bool = False, via_con
             dict.__setitem__(_conf.CONFIG, setup.Feed.GROUP, saved)
         for k in keys:
             _ADVERTISED.pop(k, None)
+
+
+def _request(importer, stmt, keys, explicit, cls, readback, earlier) -> Observed:
+    """one `importer.match(stmt)` on the shared instance + the per-feed verdicts of fresh single-feed importers / parsers"""
+    import forml
+    from forml import io
+    from forml.io import dsl
+
+    stable = identity = True
+    try:
+        feed = importer.match(stmt)
+        selected = keys.index(feed.key)
+        stable = importer.match(stmt) is feed
+        if selected in explicit:
+            identity = feed is explicit[selected]
+    except forml.MissingError as err:
+        selected = None if type(err) is forml.MissingError else ('error', type(err).__name__)
+    except Exception as err:  # pylint: disable=broad-except
+        selected = ('error', type(err).__name__)
+    covers, parses = [], []
+    for i in range(len(keys)):
+        feed = cls(key=keys[i])
+        try:
+            covers.append(io.Importer(feed).match(stmt) is feed)
+        except forml.MissingError as err:
+            covers.append(False if type(err) is forml.MissingError else ('error', type(err).__name__))
+        except Exception as err:  # pylint: disable=broad-except
+            covers.append(('error', type(err).__name__))
+        try:
+            with feed.Reader.parser(feed.sources, feed.features) as visitor:
+                stmt.accept(visitor)
+                visitor.fetch()
+            parses.append('ok')
+        except dsl.UnprovisionedError:
+            parses.append('unprovisioned')
+        except Exception as err:  # pylint: disable=broad-except
+            parses.append(f'other:{type(err).__name__}')
+    return Observed(g.to_ast(stmt), readback, selected, stable, identity, tuple(covers), tuple(parses), earlier)
 
 
 def oracle(obs: Observed) -> list:
@@ -334,6 +358,8 @@ def oracle(obs: Observed) -> list:
             if 'ref' in kinds:
                 out.append((f'the parser of the selected feed {sel} reports an unprovisioned source below the reference '
                             'the feed advertises', 'selected-parser-unprovisioned-under-advertised-reference'))
+    if obs.earlier:
+        out = [(f'{what} (request {obs.earlier + 1} on the same importer instance)', sig) for what, sig in out]
     for i in range(n):
         if not cov[i] and obs.parses[i] == 'ok':
             out.append((f'feed {i} lacks a source the statement reads, yet its parser resolves the statement',
@@ -378,6 +404,17 @@ CORPUS = [
 ]
 
 
+_QB = ('query', B, (('elem', B, 'name'),), None, (), None, (), None)
+HISTORIES = [
+    # the high-priority feed lacks a table of the first request and covers the later ones
+    Case(_QA, ((10, (A,)), (2, (A, B))), (_QB,)),
+    Case(_QA, ((10, (A,)),), (_QB, _QA, _QB)),
+    Case(_QJ, ((None, (A, B)), (3, (A, B, C))), (('query', C, (('elem', C, 'name'),), None, (), None, (), None), _QA)),
+    Case(A, ((4, (A,)), (4, (B,))), (B, A, B, C)),
+    Case(_QB, ((1, (B,)), (9, (A,))), (_QA, _QA, _QB, _QA)),
+]
+
+
 class C09(fw.Check):
     ID = 'C09'
     LEAN_MODULES = ['ForML.Props.C09']
@@ -386,8 +423,9 @@ class C09(fw.Check):
             'joins, references, bare tables; depth 1-2) x pools of 1..3 real io.Feed subclasses (explicit instances = infinite '
             'priority, or lazily configured setup.Feed descriptors with priorities in halves incl. ties and negatives) whose '
             'advertised sources are subsets of {tables, references, joins, sub-queries, sets of the statement} + near misses '
-            '(one leaf changed) + unrelated sources; a case is distinct by (statement, pool) and non-trivial when a feed '
-            'advertises a non-table or the pool has >= 2 feeds.  Compared with the model: selected index, matcher verdict per '
+            '(one leaf changed) + unrelated sources; plus request histories: 2..6 match() calls on ONE importer instance over 2..3 distinct statements with repetitions, each request '
+            'a case of its own; a case is distinct by (statement, pool, earlier requests) and non-trivial when a feed '
+            'advertises a non-table or the pool has >= 2 feeds.  Compared with the model: selected index (single-shot, and matchSeq for histories), matcher verdict per '
             'feed, parser verdict per feed (tuple parser on every case, SQLAlchemy parser on a third).  Oracle = the property text '
             'on the ASTs read back from the real objects.')
     TRUSTED = [
@@ -501,6 +539,32 @@ class C09(fw.Check):
             pool[r.randrange(n)] = (pool[0][0] if r.random() < 0.5 else r.choice(levels), pool[0][1])
         return tuple(pool)
 
+    def _histories(self, gen) -> list:
+        """Request histories: 2..6 `match()` calls on ONE importer instance over 2..3 distinct statements (repetitions hit
+        the lru_cache with an equal, not identical, statement); every feed is drawn to suit one of the statements (or two),
+        so that a feed typically fails to cover one request and covers a later one, and vice versa."""
+        r = self.rng
+        out = list(HISTORIES)
+        wanted = len(out) + self.n(130, 1300)
+        while len(out) < wanted:
+            distinct = []
+            while len(distinct) < r.choice((2, 2, 3)):
+                stmt = self._statement(gen) if r.random() < 0.7 else r.choice(g.CATALOG)
+                if stmt not in distinct and self._builds(stmt) and (self._parseable(stmt) or r.random() < 0.1):
+                    distinct.append(stmt)
+            asked = list(distinct) + [r.choice(distinct) for _ in range(r.randint(0, 6 - len(distinct)))]
+            r.shuffle(asked)
+            levels = r.choice(((2, 2, 2), (0, 2, 2), (1, 4, 9), (-4, 0, 5), (5, 4, 4)))
+            pool = []
+            for _ in range(r.choice((1, 2, 2, 3, 3))):
+                target = r.choice(distinct)
+                adv = self._advertised(target, r.choice(distinct))
+                if r.random() < 0.3:
+                    adv = tuple(dict.fromkeys(adv + self._advertised(r.choice(distinct), target)))
+                pool.append((None if r.random() < 0.25 else r.choice(levels), adv))
+            out.append(Case(asked[-1], tuple(pool), tuple(asked[:-1])))
+        return out
+
     def _cases(self) -> list:
         gen = g.Gen(self.rng, small_ints=True)
         cases = list(CORPUS)
@@ -519,6 +583,7 @@ class C09(fw.Check):
                     raise fw.MachineryError('no generated statement gets through the parser of a fully provisioned feed')
                 continue
             cases.append(Case(stmt, self._pool(stmt, other)))
+        cases.extend(self._histories(gen))
         self.extra['generated_statements_rejected_by_forml'] = skipped
         self.extra['generated_statements_mostly_dropped_as_unparseable'] = unparseable
         if not self.quick:
@@ -564,17 +629,35 @@ class C09(fw.Check):
         return f'feeds={n} advertised={nont} -> {res}'
 
     def _check(self, cases: list, tag: str = '') -> None:
-        observed, first = [], {}
+        """Every request of every case (a case with `before` is a request history answered by ONE importer instance) is
+        compared with the single-shot model and judged by the oracle; a history is also compared with `matchSeq`."""
+        entries, first, seqs = [], {}, []  # entries: (case of that request, observed, case index)
         for idx, case in enumerate(cases):
-            obs = observe(case, sql=False, split_builders=idx % 2 == 1, via_config=idx % 4 >= 2)
-            observed.append(obs)
-        answers = self.model([self.line(o) for o in observed])
-        for idx, (case, obs, ans) in enumerate(zip(cases, observed, answers)):
+            run = observe_all(case, sql=False, split_builders=idx % 2 == 1, via_config=idx % 4 >= 2)
+            asked = case.before + (case.statement,)
+            for j, obs in enumerate(run):
+                entries.append((Case(asked[j], case.pool, asked[:j]), obs, idx))
+            if case.before:
+                seqs.append((case, run))
+        lines = [self.line(o) for _, o, _ in entries]
+        for case, run in seqs:
+            pool = tuple(('inf' if p is None else p, tuple(g.short(a) for a in sorted(adv, key=repr))) for p, adv in run[0].pool)
+            lines.append(sexp.dumps(g.with_let(('c09seq', tuple(g.short(o.statement) for o in run), pool))))
+        answers = self.model(lines)
+        for (case, run), ans in zip(seqs, answers[len(entries):]):
+            m = sexp.loads(ans)
+            got = [o.selected for o in run]
+            want = None if not isinstance(m, list) or m[0] != 'ok' else [None if x == 'none' else int(x[1]) for x in m[1]]
+            if got != want:
+                self.diverge('answers of one importer instance to a request history', case_json(case), got, want)
+        sql_done = set()
+        for (case, obs, idx), ans in zip(entries, answers):
             nontrivial = len(obs.pool) > 1 or any(a[0] != 'table' for _, adv in obs.pool for a in adv)
-            self.case((obs.statement, obs.pool), tag + self._shape(obs), nontrivial,
+            hist = f'history[{len(cases[idx].before) + 1}] ' if cases[idx].before else ''
+            self.case((obs.statement, obs.pool, case.before), tag + hist + self._shape(obs), nontrivial,
                       sample={'statement': sexp.dumps(g.short(obs.statement))[:300],
                               'pool': [[p, [sexp.dumps(g.short(a))[:120] for a in adv]] for p, adv in obs.pool],
-                              'selected': obs.selected, 'parses': obs.parses})
+                              'selected': obs.selected, 'parses': obs.parses, 'earlier_requests': obs.earlier})
             for p in obs.parses:
                 if p.startswith('other:'):
                     self.extra.setdefault('parser_other_errors', {}).setdefault(p, 0)
@@ -594,18 +677,21 @@ class C09(fw.Check):
                     self.diverge(f'parser verdict of feed {i}', witness, p, r)
             for what, sig in oracle(obs):
                 first.setdefault(sig, (what, case))
-            if idx % 3 == 0:
+            if idx % 3 == 0 and idx not in sql_done:
                 # the SQLAlchemy parser shipped with forml goes through the same source resolution
-                sq = observe(case, sql=True, split_builders=False)
-                self.case(('sql', obs.statement, obs.pool), tag + 'alchemy ' + self._shape(sq), nontrivial)
-                if sq.selected != obs.selected or sq.covers != obs.covers:
-                    self.diverge('selection differs between two feed classes with the same sources', witness,
-                                 [sq.selected, sq.covers], [obs.selected, obs.covers])
-                for i, (p, r) in enumerate(zip(sq.parses, mres)):
-                    if not p.startswith('other:') and (p == 'ok') != r:
-                        self.diverge(f'SQLAlchemy parser verdict of feed {i}', witness, p, r)
-                for what, sig in oracle(sq):
-                    first.setdefault(sig, (what + ' (SQLAlchemy parser)', case))
+                sql_done.add(idx)
+                for sq in observe_all(cases[idx], sql=True, split_builders=False)[-1:]:
+                    full = cases[idx]
+                    self.case(('sql', sq.statement, sq.pool, full.before), tag + 'alchemy ' + self._shape(sq), nontrivial)
+                    for what, sig in oracle(sq):
+                        first.setdefault(sig, (what + ' (SQLAlchemy parser)', full))
+                    if not full.before:
+                        if sq.selected != obs.selected or sq.covers != obs.covers:
+                            self.diverge('selection differs between two feed classes with the same sources', witness,
+                                         [sq.selected, sq.covers], [obs.selected, obs.covers])
+                        for i, (p, r) in enumerate(zip(sq.parses, mres)):
+                            if not p.startswith('other:') and (p == 'ok') != r:
+                                self.diverge(f'SQLAlchemy parser verdict of feed {i}', witness, p, r)
         # one (minimised) failing input per root-cause signature
         for sig, (what, case) in first.items():
             small = self._shrink(case, sig)
@@ -636,15 +722,31 @@ class C09(fw.Check):
             return []
 
     def _shrink(self, case: Case, sig: str) -> Case:
-        """Greedy: smaller statement (one of its sub-sources), fewer feeds, fewer advertised sources."""
+        """Greedy: shorter request history, smaller statements (one of their sub-sources), fewer feeds, fewer advertised
+        sources."""
         def fails(c):
             return any(s == sig for _, s in self._violations_of(c))
 
         changed = True
         while changed:
             changed = False
+            if case.before and fails(case._replace(before=())):
+                case, changed = case._replace(before=()), True
+                continue
+            for i in range(len(case.before)):
+                cands = [case._replace(before=case.before[:i] + case.before[i + 1:])]
+                cands += [case._replace(before=case.before[:i] + (sub,) + case.before[i + 1:])
+                          for sub in list(subsources(case.before[i]))[1:]]
+                for cand in cands:
+                    if fails(cand):
+                        case, changed = cand, True
+                        break
+                if changed:
+                    break
+            if changed:
+                continue
             for sub in list(subsources(case.statement))[1:]:
-                cand = Case(sub, case.pool)
+                cand = case._replace(statement=sub)
                 if fails(cand):
                     case, changed = cand, True
                     break
@@ -652,13 +754,13 @@ class C09(fw.Check):
                 continue
             for i in range(len(case.pool)):
                 if len(case.pool) > 1:
-                    cand = Case(case.statement, case.pool[:i] + case.pool[i + 1:])
+                    cand = case._replace(pool=case.pool[:i] + case.pool[i + 1:])
                     if fails(cand):
                         case, changed = cand, True
                         break
                 prio, adv = case.pool[i]
                 for j in range(len(adv)):
-                    cand = Case(case.statement, case.pool[:i] + ((prio, adv[:j] + adv[j + 1:]),) + case.pool[i + 1:])
+                    cand = case._replace(pool=case.pool[:i] + ((prio, adv[:j] + adv[j + 1:]),) + case.pool[i + 1:])
                     if fails(cand):
                         case, changed = cand, True
                         break
